@@ -197,6 +197,16 @@ theorem lowered_limit_lazy (s : C13.Lim) (h : C13.Inv s) (n : Int) (hn : n ≤ s
     (s.V - n ≤ k → (s'.holders.length : Int) ≤ n) :=
   C13.reduction_takes_effect s h n hn ops hno
 
+/-- **Bounded wait, counted in completions** (= C13 `served_within` on the outgoing limiter): a
+caller queued at position `k` is written after at most `k + 1 + (V − T)⁺` completions of
+outstanding requests — and each outstanding request completes within `sent_request_timeout` of
+being written (that timing half is part (iii), checked by the oracle, not proved). -/
+theorem bounded_wait_in_completions (s : C13.Lim) (h : C13.Inv s) (p : C13.Pos s) (ops : List C13.Op)
+    (he : C13.exitsOnly s ops) (k : Nat) (hk : k < s.waiters.length)
+    (hn : k + 1 + (s.V - s.T).toNat ≤ ops.length) :
+    ∃ x, s.waiters[k]? = some x ∧ (C13.ids (C13.run s ops).2)[k]? = some x :=
+  C13.served_within s h p ops he k hk hn
+
 /-- invariant of the composed system -/
 structure OInv (m : Int) (o : Out) : Prop where
   inv : C13.Inv o.lim
